@@ -389,6 +389,55 @@ pub fn decode_all(j: &Value, st: &mut Stats) {
     all_types!(decode_as, j, st);
 }
 
+/// types whose serde impls branch on is_human_readable(), and direct probes of the flag
+#[derive(Debug, PartialEq)]
+pub struct HrProbe(pub bool);
+impl Serialize for HrProbe {
+    fn serialize<S: Serializer>(&self, s: S) -> Result<S::Ok, S::Error> {
+        let hr = s.is_human_readable();
+        s.serialize_str(if hr { "human-readable" } else { "compact" })
+    }
+}
+impl<'de> Deserialize<'de> for HrProbe {
+    fn deserialize<D: serde::Deserializer<'de>>(d: D) -> Result<Self, D::Error> {
+        let hr = d.is_human_readable();
+        let _ = serde::de::IgnoredAny::deserialize(d)?;
+        Ok(HrProbe(hr))
+    }
+}
+
+pub fn check_human_readable(st: &mut Stats) {
+    use std::net::{IpAddr, Ipv4Addr, Ipv6Addr, SocketAddr};
+    fn image<T: Serialize>(name: &str, x: &T, st: &mut Stats) {
+        st.states += 1;
+        st.evaluations += 1;
+        st.validated += 1;
+        st.transitions += 1;
+        let want = serde_json::to_value(x).unwrap();
+        let got = guarded(|| Variable::from_serializable(x).map(|v| var_to_value(&v)).map_err(|e| format!("{:?}", e.reason)));
+        match got {
+            Ok(Ok(v)) if v == want => {
+                st.nontrivial += 1;
+                st.outcome("human-readable type");
+            }
+            other => st.violate(viol("C14/serialize/human-readable", "serializer", json!({"kind": "human-readable", "type": name}), want.to_string(), format!("{:?}", other))),
+        }
+    }
+    image("Ipv4Addr", &Ipv4Addr::new(10, 0, 0, 254), st);
+    image("IpAddr(v6)", &IpAddr::V6(Ipv6Addr::LOCALHOST), st);
+    image("SocketAddr", &"127.0.0.1:80".parse::<SocketAddr>().unwrap(), st);
+    image("Vec<IpAddr>", &vec![IpAddr::V4(Ipv4Addr::LOCALHOST)], st);
+    image("HrProbe", &HrProbe(true), st);
+    image("Some(HrProbe) in a map", &std::collections::BTreeMap::from([("k".to_string(), Some(HrProbe(true)))]), st);
+    for j in [json!("127.0.0.1"), json!("::1"), json!([127, 0, 0, 1]), json!({"V4": [127, 0, 0, 1]}), json!("10.0.0.254:80"), json!(1), json!(null), json!([1, 2])] {
+        decode_as::<IpAddr>("IpAddr", &j, st);
+        decode_as::<Ipv4Addr>("Ipv4Addr", &j, st);
+        decode_as::<SocketAddr>("SocketAddr", &j, st);
+        decode_as::<HrProbe>("HrProbe", &j, st);
+        decode_as::<Vec<HrProbe>>("Vec<HrProbe>", &j, st);
+    }
+}
+
 pub fn decode_pool(tier: Tier) -> Vec<Value> {
     let mut v = crate::enumr::pool_full();
     let _ = tier;
@@ -446,6 +495,7 @@ pub fn run(tier: Tier) -> i32 {
         }
     });
     st = st.merge(sd);
+    check_human_readable(&mut st);
     let kinds = ["bool", "i8", "u64", "f32", "char", "bytes", "some", "unit_struct", "unit_variant", "newtype_struct", "newtype_variant", "seq", "tuple", "tuple_struct", "tuple_variant", "map", "struct", "struct_variant"];
     rep.guard("every serializer method family was exercised", kinds.iter().all(|k| st.outcomes.get(*k).cloned().unwrap_or(0) > 0));
     rep.guard("decoding succeeds for many (type, value) pairs", st.outcomes.get("decoded equal values").cloned().unwrap_or(0) > 200);
@@ -463,6 +513,13 @@ pub fn replay(case: &Value) -> Option<(String, bool)> {
             let t = case["type"].as_str()?;
             let v = st.violations.iter().find(|v| v.case["type"] == json!(t));
             Some(match v {
+                Some(v) => (format!("{}: expected {} actual {}", v.key, v.expected, v.actual), true),
+                None => ("agree".into(), false),
+            })
+        }
+        "human-readable" => {
+            check_human_readable(&mut st);
+            Some(match st.violations.first() {
                 Some(v) => (format!("{}: expected {} actual {}", v.key, v.expected, v.actual), true),
                 None => ("agree".into(), false),
             })
